@@ -210,6 +210,57 @@ CLAIMS.update({
     },
 })
 
+CLAIMS.update({
+    'C09': {
+        'text': 'Decides for every field of the saved configuration at once: '
+                '(ENV-FIELDS) keys written by Environment.save = keys read by '
+                'load after the upgrade chain = attributes assigned by '
+                '__init__/finalize = attributes restored, and the same '
+                'writer/reader agreement for Toolchain, EnvVarDict, '
+                'RegenerateFiles, FileFilter, FindCacheFile, BasePath; '
+                '(UPGRADE-CHAIN) version steps increasing, contiguous, ending '
+                'at Environment.version; (MUTATORS) EnvVarDict overrides '
+                'every mutating dict method and each records the change; '
+                '(AMBIENT) every read of os.environ/getenv/getcwd/argv/'
+                'platform.* and every call relying on an os.environ '
+                'parameter default is the capture, passes saved variables, '
+                'or is allow-listed with a reason; (NULLABLE-ROUNDTRIP) no '
+                'total conversion (str/T()) of a field that may be None; '
+                '(CTOR-BYPASS) from_json via __new__ sets what __init__ '
+                'sets; (LOAD-ONLY) regenerate/env/run take everything from '
+                'Environment.load, reset variables before replaying the '
+                'toolchain, ignore later command lines. Object equality '
+                'over all values is not decided.',
+        'note': _TB + 'Not decided: equality of configuration objects before '
+                'save / after load over all values. F5, F6, F12 repaired by '
+                'fix: commits.',
+        'technique': 'writer/reader key-set agreement, override '
+                     'exhaustiveness, ambient-state who-may-read scan with '
+                     'default-parameter call-site analysis, may-return-None '
+                     'analysis',
+    },
+    'C10': {
+        'text': 'Decides: (WRITE-ORDER) in configure/regenerate the build-'
+                'file writers are dominated by the return of configure_build '
+                '(CFG dominance: a raising script cannot reach them); in each '
+                'backend write() all hooks and handlers precede the open-for-'
+                'write of the build file; the ordered persistent writes of a '
+                'run are computed through the hook registry and call graph '
+                'and no file read by the lazy-skip decision may be written '
+                'before the build file; (EXIT-STATUS) every except clause of '
+                'the four driver commands returns a status that cannot be '
+                '0/None on all paths, ScriptExitError only carries truthy '
+                'codes, AbortConfigure has one raise site dominated by the '
+                'touch loop and guarded by the unchanged test. Torn files '
+                'and follow-up attempts are not decided.',
+        'note': _TB + 'Not decided: crash points inside one write (the build '
+                'file is written in place); behaviour of follow-up attempts. '
+                'Known finding F3 (find cache saved before the build file).',
+        'technique': 'CFG dominance + effect ordering through registry/call '
+                     'graph + all-paths return-value analysis of handlers',
+    },
+})
+
 _PENDING = 'check not built yet in this session (design in DESIGN.md)'
 
 NOT_APPLICABLE = {
